@@ -566,6 +566,7 @@ func (p *prop) genE2E(rng *core.Rand) string {
 }
 
 var malformed = []string{
+	"full", "full c ok 7365 7365", "full a x 7365637265742e74657374 7365", "full a ok 7365637265742e74657374 5b5d", "full a ok 7365637265742e74657374",
 	"res", "res a", "res a d", "res a b c", "res ab c",
 	"quic", "quic o0", "quic o1,o1", "quic c1", "quic o1,o2,o3", "quic o1,c1,o1", "quic o1,,p", "quic o1 p", "quic x", "quic o1,c2",
 	"cf2", "cf2 Z", "cf2 q r", "cf2 ~",
@@ -651,18 +652,19 @@ func (p *prop) Generate(rng *core.Rand, tier string, emit func(string)) {
 		return
 	}
 	nPol, nEnf, nBad, nE2E, nCF := 4500, 8000, 800, 600, 1200
-	nQUIC := 60
+	nQUIC, nFull := 60, 150
 	switch tier {
 	case "thorough":
 		nPol, nEnf, nBad, nE2E, nCF = 60000, 100000, 5000, 6000, 20000
-		nQUIC = 600
+		nQUIC, nFull = 600, 2000
 	case "search":
 		nPol, nEnf, nBad, nE2E, nCF = 8000, 12000, 0, 600, 2000
-		nQUIC = 150
+		nQUIC, nFull = 150, 300
 	}
 	rp, re, rb, r2 := rng.Fork(), rng.Fork(), rng.Fork(), rng.Fork()
 	r3 := rng.Fork()
 	r4 := rng.Fork()
+	r5 := rng.Fork()
 	for _, m := range malformed {
 		emit(m)
 	}
@@ -707,6 +709,9 @@ func (p *prop) Generate(rng *core.Rand, tier string, emit func(string)) {
 		}
 		if i < nQUIC {
 			emit(genQUIC(r4))
+		}
+		if i < nFull && p.setupFull() == nil {
+			emit(p.genFull(r5))
 		}
 		if i < nBad {
 			var base string
